@@ -13,11 +13,9 @@
     C09_ns_for_prefix_false       closed witness <a xmlns:p=""/>
     C09_defined                   is_prefix_defined is implied by a binding
     C09_prefix_sound              prefix_for_namespace(ns) = p, ns real  ⇒  p is bound to ns
-    C09_prefix_complete_false     FALSE as written (early `return None`): closed witness
-                                  <a xmlns:p="A" xmlns:q="B"><b xmlns:p="C"/></a>, node b, namespace B
-    C09_prefix_complete_partial   complete when no prefix is declared twice among the declarations
-                                  visited until the first binding to ns; C09_prefix_guard_exact: that
-                                  guard is also necessary
+    C09_prefix_complete           whenever some prefix is bound to ns, prefix_for_namespace finds one
+                                  (full strength since /repo 6df2c0f: a shadowed prefix is skipped);
+                                  C09_prefix_iff: for a real namespace, Some(_) iff bound
     C09_fullname_string           full_name is the spelling of name_ref's prefix
     C09_fullname_element_partial / _attribute_partial / _false_…   the reported prefix resolves back
                                   to the name's namespace by the rule for its kind, outside the two
@@ -26,15 +24,18 @@
     C09_node_name_ref             node_name_ref reports the node's own name with name_ref's prefix
     C09_inherited_sound           inherited_prefixes ⊆ bindings in scope at the parent
     C09_unresolved_recursive      unresolved_namespaces = a recursive function of the declarations inside the
-                                  subtree only (name stack starts empty): per element, the namespaces of its
-                                  name and attribute names to which no prefix at all is bound
-    C09_unresolved_reports_no_namespace / _xml_namespace   closed witnesses of the two defects
+                                  subtree only (name stack starts empty)
+    C09_unresolved_element        per element, under the stack invariant: exactly the namespace of its name if
+                                  real, not XML and bound to no prefix, and the namespaces of its attribute
+                                  names that are real, not XML and bound to no NON-EMPTY prefix
+    C09_unresolved_real           the no-namespace id and the XML namespace are never reported
     C09_stack_invariant           FullnameSerializer: top frame = nearest-declaration bindings of the
                                   frames pushed (unique prefixes per element)
 -/
 import XotModel.Lemmas.Scope
 import XotModel.Lemmas.ScopeStack
 import XotModel.Lemmas.ScopeWalk
+import XotModel.Lemmas.ScopeSerialise
 
 namespace XotModel.Props
 open XotModel
@@ -132,53 +133,30 @@ theorem C09_prefix_sound (t : Tree) (path : Path) (ns p : Nat)
     subst h
     exact scopeSpecChain_of_lookup (pfnDecls_sound ns _ _ _ hd).2 hns
 
-/-- Completeness as the property states it. -/
-def C09_prefix_complete_statement : Prop :=
-  ∀ (t : Tree) (path : Path) (ns : Nat), ns ≠ Env.noNamespace →
-    (∃ p, scopeSpec t path p = some ns) → ∃ p, prefixForNamespace t path ns = some (some p)
-
-/-- FALSE as written: `<a xmlns:p="A" xmlns:q="B"><b xmlns:p="C"/></a>`, node `b`, namespace `B`
-    (bound to `q`): the walk meets `p` a second time and returns `None`. -/
-theorem C09_prefix_complete_false : ¬ C09_prefix_complete_statement := by
-  intro h
-  have := h (.node (.element 2) [.node (.namespace 2 2) [], .node (.namespace 3 3) [],
-      .node (.element 3) [.node (.namespace 2 4) []]]) [2] 3 (by decide) ⟨3, by decide⟩
-  obtain ⟨p, hp⟩ := this
-  have key : prefixForNamespace (.node (.element 2) [.node (.namespace 2 2) [], .node (.namespace 3 3) [],
-      .node (.element 3) [.node (.namespace 2 4) []]]) [2] 3 = some none := by decide
-  rw [key] at hp
-  cases hp
-
-/-- The guard: among the declarations the walk visits (nearest element first, then `xml`) up to
-    and including the first one that binds something to `ns`, no prefix occurs twice. -/
-def NoRedeclarationBefore (chain : List Tree) (ns : Nat) : Prop :=
-  ((visitedUntil ns (allDecls chain)).map Prod.fst).Nodup
-
-theorem C09_prefix_complete_partial (t : Tree) (path : Path) (chain : List Tree) (ns : Nat)
-    (hc : t.ancestorsOrSelf path = some chain) (hg : NoRedeclarationBefore chain ns)
+/-- Completeness, at full strength: if some prefix is bound to `ns` in the node's scope,
+    `prefix_for_namespace` returns a prefix, and (for a real namespace) one bound to `ns`. -/
+theorem C09_prefix_complete (t : Tree) (path : Path) (ns : Nat)
     (hex : ∃ p, scopeSpec t path p = some ns) :
     ∃ p, prefixForNamespace t path ns = some (some p) ∧
       (ns ≠ Env.noNamespace → scopeSpec t path p = some ns) := by
   obtain ⟨q, hq⟩ := hex
-  simp only [scopeSpec, hc] at hq
-  have hm := mem_of_lookup_eq_some (scopeSpecChain_some_lookup hq)
-  obtain ⟨p, hp⟩ := pfnDecls_complete ns (allDecls chain) [] ⟨q, hm⟩ hg (by simp)
-  have hres : prefixForNamespace t path ns = some (some p) := by
-    simp [prefixForNamespace, hc, prefixForNamespaceChain, pfnChain_eq, hp, pfnResult]
-  exact ⟨p, hres, fun hns => C09_prefix_sound t path ns p hres hns⟩
+  unfold scopeSpec at hq
+  cases hc : t.ancestorsOrSelf path with
+  | none => simp [hc] at hq
+  | some chain =>
+    simp only [hc] at hq
+    obtain ⟨p, hp⟩ := pfnDecls_complete ns (allDecls chain) []
+      ⟨q, by simp, scopeSpecChain_some_lookup hq⟩
+    have hres : prefixForNamespace t path ns = some (some p) := by
+      simp [prefixForNamespace, hc, prefixForNamespaceChain, pfnChain_eq, hp, pfnResult]
+    exact ⟨p, hres, fun hns => C09_prefix_sound t path ns p hres hns⟩
 
-/-- The guard is exact: whenever a prefix is found, nothing visited was declared twice. -/
-theorem C09_prefix_guard_exact (t : Tree) (path : Path) (chain : List Tree) (ns p : Nat)
-    (hc : t.ancestorsOrSelf path = some chain)
-    (h : prefixForNamespace t path ns = some (some p)) : NoRedeclarationBefore chain ns := by
-  simp only [prefixForNamespace, hc, Option.map_some, Option.some.injEq, prefixForNamespaceChain,
-    pfnChain_eq] at h
-  cases hd : pfnDecls ns [] (allDecls chain) with
-  | cont s => simp [hd, pfnResult] at h
-  | ret r =>
-    simp only [hd, pfnResult] at h
-    subst h
-    exact (pfnDecls_ret_some_guard ns _ _ _ hd).1
+/-- For a real namespace: `prefix_for_namespace` answers `Some(_)` exactly when the namespace is
+    bound in the node's scope. -/
+theorem C09_prefix_iff (t : Tree) (path : Path) (ns : Nat) (hns : ns ≠ Env.noNamespace) :
+    (∃ p, prefixForNamespace t path ns = some (some p)) ↔ ∃ p, scopeSpec t path p = some ns :=
+  ⟨fun ⟨p, hp⟩ => ⟨p, C09_prefix_sound t path ns p hp hns⟩,
+   fun h => let ⟨p, hp, _⟩ := C09_prefix_complete t path ns h; ⟨p, hp⟩⟩
 
 /-! ### Qualified names -/
 
@@ -306,16 +284,73 @@ theorem C09_unresolved_recursive (env : Env) (t : Tree) (path : Path) :
   unfold unresolvedNamespaces
   cases t.at? path <;> simp [unresolvedNamespacesSub_eq]
 
-/-- Defect: `<a/>` with `a` in no namespace: the no-namespace id is reported as unresolved. -/
-theorem C09_unresolved_reports_no_namespace :
-    unresolvedNamespaces { names := [(['a'], 0)] } (.node (.element 0) []) [] = some [0] := by decide
+/-- What one element contributes, read against the nearest-declaration bindings of the frames
+    pushed inside the subtree (stack invariant of `C09_stack_invariant`): the namespace of the
+    element name if it is real, not the XML namespace and bound to no prefix; the namespace of an
+    attribute name if it is real, not the XML namespace and bound to no non-empty prefix. -/
+theorem C09_unresolved_element (env : Env) (s : FStack) (frames : List (List (Nat × Nat)))
+    (h : FrameInv s.top frames) (t : Tree) (name ns : Nat) :
+    ns ∈ unresolvedOfElement env s.top t name ↔
+      (env.nsOfName name = ns ∧ ns ≠ Env.noNamespace ∧ ns ≠ Env.xmlNamespace ∧
+        ∀ p, scopeOf frames p ≠ some ns) ∨
+      (∃ a ∈ t.attrs.map (·.1), env.nsOfName a = ns ∧ ns ≠ Env.noNamespace ∧
+        ns ≠ Env.xmlNamespace ∧ ∀ p, p ≠ Env.emptyPrefix → scopeOf frames p ≠ some ns) := by
+  have hk : ∀ n, knownIn s.top n = false ↔ ∀ p, scopeOf frames p ≠ some n := by
+    intro n
+    rw [Bool.eq_false_iff, Ne, knownIn_iff]
+    constructor
+    · intro hne p hp; exact hne ⟨p, (h.mem p n).2 hp⟩
+    · rintro hall ⟨p, hp⟩; exact hall p ((h.mem p n).1 hp)
+  have ha : ∀ n, attrKnownIn s.top n = false ↔ ∀ p, p ≠ Env.emptyPrefix → scopeOf frames p ≠ some n := by
+    intro n
+    rw [Bool.eq_false_iff, Ne, attrKnownIn_iff]
+    constructor
+    · intro hne p hp0 hp; exact hne ⟨p, hp0, (h.mem p n).2 hp⟩
+    · rintro hall ⟨p, hp0, hp⟩; exact hall p hp0 ((h.mem p n).1 hp)
+  simp only [unresolvedOfElement, List.mem_append, List.mem_filterMap, elementPrefix_ok,
+    attributePrefix_ok]
+  constructor
+  · rintro (h1 | ⟨a, hmem, h1⟩)
+    · left
+      by_cases hc : (env.nsOfName name == Env.noNamespace || env.nsOfName name == Env.xmlNamespace ||
+          knownIn s.top (env.nsOfName name)) = true
+      · simp [hc] at h1
+      · simp only [hc, Bool.not_false, ↓reduceIte, List.mem_singleton] at h1
+        subst h1
+        simp only [Bool.or_eq_true, beq_iff_eq, not_or, Bool.not_eq_true] at hc
+        exact ⟨rfl, hc.1.1, hc.1.2, (hk _).1 hc.2⟩
+    · right
+      by_cases hc : (env.nsOfName a == Env.noNamespace || env.nsOfName a == Env.xmlNamespace ||
+          attrKnownIn s.top (env.nsOfName a)) = true
+      · simp [hc] at h1
+      · simp only [hc, Bool.not_false, ↓reduceIte, Option.some.injEq] at h1
+        subst h1
+        simp only [Bool.or_eq_true, beq_iff_eq, not_or, Bool.not_eq_true] at hc
+        exact ⟨a, hmem, rfl, hc.1.1, hc.1.2, (ha _).1 hc.2⟩
+  · rintro (⟨rfl, h0, h1, h2⟩ | ⟨a, hmem, rfl, h0, h1, h2⟩)
+    · left
+      have : (env.nsOfName name == Env.noNamespace || env.nsOfName name == Env.xmlNamespace ||
+          knownIn s.top (env.nsOfName name)) = false := by
+        simp [h0, h1, (hk _).2 h2]
+      simp [this]
+    · right
+      refine ⟨a, hmem, ?_⟩
+      have : (env.nsOfName a == Env.noNamespace || env.nsOfName a == Env.xmlNamespace ||
+          attrKnownIn s.top (env.nsOfName a)) = false := by
+        simp [h0, h1, (ha _).2 h2]
+      simp [this]
 
-/-- Defect: `<a xmlns:p="A" xml:lang=""/>` with `a` in `A`: the XML namespace is reported, because
-    the name stack starts without the base `xml` binding. -/
-theorem C09_unresolved_reports_xml_namespace :
-    unresolvedNamespaces { names := [(['a'], 2), (['l','a','n','g'], 1)] }
-      (.node (.element 0) [.node (.namespace 2 2) [], .node (.attribute 1 []) []]) [] = some [1] := by
-  decide
+/-- The no-namespace id and the XML namespace are never reported as unresolved. -/
+theorem C09_unresolved_real (env : Env) (t : Tree) (path : Path) (l : List Nat)
+    (h : unresolvedNamespaces env t path = some l) (ns : Nat) (hm : ns ∈ l) :
+    ns ≠ Env.noNamespace ∧ ns ≠ Env.xmlNamespace := by
+  rw [C09_unresolved_recursive] at h
+  cases hs : t.at? path with
+  | none => simp [hs] at h
+  | some sub =>
+    simp only [hs, Option.map_some, Option.some.injEq] at h
+    subst h
+    exact unresolvedRec_real env ns sub [] hm
 
 /-- The name stack of the serialisers (`FullnameSerializer`): after pushing the declarations of
     the elements `frames` (innermost first, unique prefixes per element) the top frame holds
@@ -327,12 +362,10 @@ theorem C09_stack_invariant (s : FStack) (frames : List (List (Nat × Nat))) (de
 
 /-! ### Non-vacuity -/
 
-/-- `<a xmlns:p="A" xmlns:q="B"><b xmlns:p="C"/></a>` at `b`: the guard of
-    `C09_prefix_complete_partial` holds for namespace `C` (found at once) and fails for `B`. -/
-example : NoRedeclarationBefore
-    [.node (.element 3) [.node (.namespace 2 4) []],
-     .node (.element 2) [.node (.namespace 2 2) [], .node (.namespace 3 3) []]] 4 := by
-  unfold NoRedeclarationBefore; decide
+/-- `<a xmlns:p="A" xmlns:q="B"><b xmlns:p="C"/></a>` at `b`, namespace `B`: found past the
+    shadowed `p` (the former counterexample). -/
+example : prefixForNamespace (.node (.element 2) [.node (.namespace 2 2) [], .node (.namespace 3 3) [],
+    .node (.element 3) [.node (.namespace 2 4) []]]) [2] 3 = some (some 3) := by decide
 
 example : namespacesInScope (.node (.element 2) [.node (.namespace 2 2) [], .node (.namespace 0 0) [],
     .node (.element 3) [.node (.namespace 2 4) []]]) [2] = some [(2, 4), (1, 1)] := by decide
